@@ -1,21 +1,23 @@
 import NbioVerif.Lemmas.ReadPathFrames
-/-! ReadPath: a close on a peer half-close finds the kernel queue drained — in the synchronous configurations
-(`lost = 0`). In the asynchronous ones the poller closes right after handing the event to the read task, see the
-counterexample in Properties/C02. -/
+/-! ReadPath: a close on a peer half-close finds the kernel queue drained (`lost = 0`) — the poller's synchronous
+loop is not capped on a hang-up event, and with AsyncReadInPoller the hang-up is handed to the read task, which closes
+at the end of a round that started after the hang-up. -/
 namespace ReadPath
 
 structure Drain (g : Cfg) (s : St) : Prop where
   flg : ∀ fl, (s.ps = .fin fl ∨ ∃ i, s.ps = .rd i fl) → (fl.rdhup = true → s.k.eof = true) ∧ (fl.err = true → s.k.rerr = true)
   noEofUdp : g.udp = true → s.k.eof = false
   finq : g.isAsync = false → ∀ fl, s.ps = .fin fl → fl.rdhup = true → s.closed = true ∨ s.k.rerr = true ∨ s.k.qlen = 0
-  lost0 : g.isAsync = false → s.lost = 0
+  finA : g.isAsync = true → ∀ fl, s.ps = .fin fl → fl.rdhup = false
+  hq : ∀ a, s.task = .rd a true → a.again g = false → a ≠ .closed → s.k.rerr = true ∨ s.k.qlen = 0
+  lost0 : s.lost = 0
 
 theorem drain_init (g : Cfg) : Drain g init := by
   constructor <;> simp [init]
 
-theorem taskRead_frame (g : Cfg) (s : St) :
-    (taskRead g s).ps = s.ps ∧ (taskRead g s).k.eof = s.k.eof ∧ (taskRead g s).k.rerr = s.k.rerr ∧
-    (taskRead g s).lost = s.lost := by
+theorem taskRead_frame (g : Cfg) (s : St) (b : Bool) :
+    (taskRead g s b).ps = s.ps ∧ (taskRead g s b).k.eof = s.k.eof ∧ (taskRead g s b).k.rerr = s.k.rerr ∧
+    (taskRead g s b).lost = s.lost := by
   unfold taskRead
   split
   · exact ⟨rfl, rfl, rfl, rfl⟩
@@ -23,36 +25,59 @@ theorem taskRead_frame (g : Cfg) (s : St) :
     exact ⟨f4, f15, f16, f14⟩
 
 theorem tstep_frame (g : Cfg) (s s' : St) (hs : tstep g s = some s') :
-    s'.ps = s.ps ∧ s'.k.eof = s.k.eof ∧ s'.k.rerr = s.k.rerr ∧ s'.lost = s.lost := by
+    s'.ps = s.ps ∧ s'.k.eof = s.k.eof ∧ s'.k.rerr = s.k.rerr := by
   unfold tstep at hs
   split at hs
   · cases hs
-  · cases hs; exact taskRead_frame g s
-  · next a ht =>
+  · cases hs; exact ⟨(taskRead_frame g s _).1, (taskRead_frame g s _).2.1, (taskRead_frame g s _).2.2.1⟩
+  · next a hb ht =>
     cases hs
     obtain ⟨k1, k2, k3, k4, k5, k6, k7, _⟩ := consume_frame g s a
     cases hnx : (consume g s a).1 with
     | again =>
-      obtain ⟨t1, t2, t3, t4⟩ := taskRead_frame g (consume g s a).2
+      obtain ⟨t1, t2, t3, t4⟩ := taskRead_frame g (consume g s a).2 hb
       simp only [taskNext]
-      exact ⟨by rw [t1, k3], by rw [t2, k1], by rw [t3, k1], by rw [t4, k7]⟩
-    | dead => exact ⟨k3, by rw [← k1]; rfl, by rw [← k1]; rfl, k7⟩
+      exact ⟨by rw [t1, k3], by rw [t2, k1], by rw [t3, k1]⟩
+    | dead => exact ⟨k3, by rw [← k1]; rfl, by rw [← k1]; rfl⟩
     | brk =>
       obtain ⟨r1, r2, r3, r4, r5, r6, r7, r8, r9, r10, r11, r12⟩ := rearm_frame (consume g s a).2
+      obtain ⟨x1, x2, x3, x4, x5, x6⟩ := closeHang_frame (consume g s a).2
       simp only [taskNext]
+      split
+      · exact ⟨by show (closeHang (consume g s a).2).ps = s.ps; rw [x3, k3],
+          by show (closeHang (consume g s a).2).k.eof = s.k.eof; rw [x1, k1],
+          by show (closeHang (consume g s a).2).k.rerr = s.k.rerr; rw [x1, k1]⟩
       split
       · exact ⟨by show (rearm (consume g s a).2).ps = s.ps; rw [r3, k3],
           by show (rearm (consume g s a).2).k.eof = s.k.eof; rw [r11, k1],
-          by show (rearm (consume g s a).2).k.rerr = s.k.rerr; rw [r12, k1],
-          by show (rearm (consume g s a).2).lost = s.lost; rw [r10, k7]⟩
+          by show (rearm (consume g s a).2).k.rerr = s.k.rerr; rw [r12, k1]⟩
       · split
-        · exact ⟨k3, by rw [← k1]; rfl, by rw [← k1]; rfl, k7⟩
-        · exact ⟨k3, by rw [← k1]; rfl, by rw [← k1]; rfl, k7⟩
-  · cases hs; exact taskRead_frame g s
+        · exact ⟨k3, by rw [← k1]; rfl, by rw [← k1]; rfl⟩
+        · exact ⟨k3, by rw [← k1]; rfl, by rw [← k1]; rfl⟩
+  · cases hs; exact ⟨(taskRead_frame g s _).1, (taskRead_frame g s _).2.1, (taskRead_frame g s _).2.2.1⟩
+
+/-- the answer of the task's next read, when it ends the loop, found the queue empty -/
+theorem taskRead_hq (g : Cfg) (s : St) (b : Bool) (hk : KindOk g s.k.reg s.k.rq s.k.dq) :
+    ∀ a h, (taskRead g s b).task = .rd a h → a.again g = false → a ≠ .closed → (taskRead g s b).k.qlen = 0 := by
+  intro a h
+  unfold taskRead
+  split
+  · intro hx; simp [setTask] at hx
+  · obtain ⟨q1, q2, q3, q4⟩ := doRead_queue g s hk
+    intro hx hna hnc
+    simp only [setTask, TS.rd.injEq] at hx
+    obtain ⟨hx1, _⟩ := hx
+    subst hx1
+    exact q4 hna hnc
+
+theorem taskRead_lost (g : Cfg) (s : St) (b : Bool) : (taskRead g s b).lost = s.lost := (taskRead_frame g s b).2.2.2
 
 theorem drain_step (g : Cfg) (s s' : St) (a : Act) (hc : Core g s) (hd : Drain g s) (hs : step g s a = some s') :
     Drain g s' := by
-  obtain ⟨d1, d2, d3, d4⟩ := hd
+  obtain ⟨d1, d2, d3, d5, d6, d4⟩ := hd
+  -- a round that knows of the hang-up: the kernel state backs it
+  have hback : ∀ a, s.task = .rd a true → s.k.eof = true ∨ s.k.rerr = true :=
+    fun a ht => hc.hupok.backed (hc.hupok.flag a ht)
   cases a with
   | push b =>
     simp only [step] at hs
@@ -61,9 +86,12 @@ theorem drain_step (g : Cfg) (s s' : St) (a : Act) (hc : Core g s) (hd : Drain g
     · next hcond =>
       cases hs
       simp only [Bool.or_eq_true, not_or, Bool.not_eq_true] at hcond
-      refine ⟨d1, d2, fun ha fl hp hr => ?_, d4⟩
-      have := (d1 fl (Or.inl hp)).1 hr
-      rw [hcond.2] at this; cases this
+      refine ⟨d1, d2, fun ha fl hp hr => ?_, d5, fun a ht hna hnc => ?_, d4⟩
+      · have := (d1 fl (Or.inl hp)).1 hr
+        rw [hcond.2] at this; cases this
+      · rcases hback a ht with h | h
+        · rw [hcond.2] at h; cases h
+        · exact Or.inl h
   | dgram x b =>
     simp only [step] at hs
     split at hs
@@ -71,26 +99,29 @@ theorem drain_step (g : Cfg) (s s' : St) (a : Act) (hc : Core g s) (hd : Drain g
     · next hcond =>
       cases hs
       have hu : g.udp = true := by simpa using hcond
-      refine ⟨d1, d2, fun ha fl hp hr => ?_, d4⟩
-      have := (d1 fl (Or.inl hp)).1 hr
-      rw [d2 hu] at this; cases this
+      refine ⟨d1, d2, fun ha fl hp hr => ?_, d5, fun a ht hna hnc => ?_, d4⟩
+      · have := (d1 fl (Or.inl hp)).1 hr
+        rw [d2 hu] at this; cases this
+      · rcases hback a ht with h | h
+        · rw [d2 hu] at h; cases h
+        · exact Or.inl h
   | eof =>
     simp only [step] at hs
     split at hs
     · cases hs
     · next hcond =>
       cases hs
-      refine ⟨fun fl h => ⟨fun _ => rfl, (d1 fl h).2⟩, fun hu => by simp [hu] at hcond, d3, d4⟩
+      exact ⟨fun fl h => ⟨fun _ => rfl, (d1 fl h).2⟩, fun hu => by simp [hu] at hcond, d3, d5, d6, d4⟩
   | rderr =>
     simp only [step] at hs
     cases hs
-    exact ⟨fun fl h => ⟨(d1 fl h).1, fun _ => rfl⟩, d2, fun _ _ _ _ => Or.inr (Or.inl rfl), d4⟩
-  | intr n => simp only [step] at hs; cases hs; exact ⟨d1, d2, d3, d4⟩
+    exact ⟨fun fl h => ⟨(d1 fl h).1, fun _ => rfl⟩, d2, fun _ _ _ _ => Or.inr (Or.inl rfl), d5, fun _ _ _ _ => Or.inl rfl, d4⟩
+  | intr n => simp only [step] at hs; cases hs; exact ⟨d1, d2, d3, d5, d6, d4⟩
   | stale =>
     simp only [step] at hs
     split at hs
     · cases hs
-    · cases hs; exact ⟨d1, d2, d3, d4⟩
+    · cases hs; exact ⟨d1, d2, d3, d5, d6, d4⟩
   | report i o =>
     obtain ⟨r1, r2, r3, r4, r5, r6, r7, r8, r9, r10, r11, r12, r13, r14, r15, r16, r17, r18, r19, r20⟩ := report_frame g s s' i o hs
     have hfl : ∀ fl, (s'.ps = .fin fl ∨ ∃ j, s'.ps = .rd j fl) → fl = flagsOf s i o := by
@@ -98,7 +129,21 @@ theorem drain_step (g : Cfg) (s s' : St) (a : Act) (hc : Core g s) (hd : Drain g
       rcases r20 with h0 | ⟨fl', h', e⟩
       · rcases h with h | ⟨j, h⟩ <;> rw [h0] at h <;> cases h
       · rcases h' with h' | h' <;> rcases h with h | ⟨j, h⟩ <;> rw [h'] at h <;> cases h <;> exact e
-    refine ⟨fun fl h => ?_, by rw [r4]; exact d2, fun ha fl hp hr => ?_, by rw [r13]; exact d4⟩
+    have hqlen : s'.k.qlen = s.k.qlen := by simp only [K.qlen, r1, r2]
+    -- which shape did the dispatch take
+    have hshape : (g.isAsync = false ∧ i = true → ∀ fl, s'.ps ≠ .fin fl) ∧ (∀ fl, s'.ps = .fin fl → i = false) := by
+      simp only [step] at hs
+      unfold report at hs
+      split at hs
+      case isFalse => cases hs
+      cases hs
+      rcases dispatch_cases g (setK s (disarm g s.k)) (flagsOf s i o) with ⟨hi, _, e⟩ | ⟨hi, e⟩ | ⟨_, _, _, e⟩ | ⟨_, _, _, e⟩
+      · rw [e]; exact ⟨fun _ fl h => by simp [setPs] at h, fun fl h => by simp [setPs] at h⟩
+      · have : i = false := hi
+        rw [e]; exact ⟨fun h => (by rw [this] at h; cases h.2), fun _ _ => this⟩
+      · rw [e]; exact ⟨fun _ fl h => by simp [setPs] at h, fun fl h => by simp [setPs] at h⟩
+      · rw [e]; exact ⟨fun _ fl h => by simp [setPs] at h, fun fl h => by simp [setPs] at h⟩
+    refine ⟨fun fl h => ?_, by rw [r4]; exact d2, fun ha fl hp hr => ?_, fun ha fl hp => ?_, fun a ht hna hnc => ?_, by rw [r13]; exact d4⟩
     · have := hfl fl h; subst this
       rw [r4, r5]
       refine ⟨fun h' => ?_, fun h' => h'⟩
@@ -107,16 +152,14 @@ theorem drain_step (g : Cfg) (s s' : St) (a : Act) (hc : Core g s) (hd : Drain g
       exfalso
       have := hfl fl (Or.inl hp); subst this
       have hinn : i = true := by simp only [flagsOf, Bool.and_eq_true] at hr; exact hr.1
-      simp only [step] at hs
-      unfold report at hs
-      split at hs
-      case isFalse => cases hs
-      cases hs
-      rcases dispatch_cases g (setK s (disarm g s.k)) (flagsOf s i o) with ⟨_, _, e⟩ | ⟨h, _⟩ | ⟨_, h, _⟩ | ⟨_, h, _⟩
-      · rw [e] at hp; simp [setPs] at hp
-      · simp [flagsOf, hinn] at h
-      · rw [ha] at h; cases h
-      · rw [ha] at h; cases h
+      exact hshape.1 ⟨ha, hinn⟩ _ hp
+    · have := hfl fl (Or.inl hp); subst this
+      have : i = false := hshape.2 _ hp
+      simp [flagsOf, this]
+    · rw [r5, hqlen]
+      rcases r17 with h | ⟨h, _⟩
+      · rw [h] at ht; exact d6 a ht hna hnc
+      · rw [h] at ht; cases ht
   | pstep =>
     simp only [step] at hs
     unfold pstep at hs
@@ -128,6 +171,7 @@ theorem drain_step (g : Cfg) (s s' : St) (a : Act) (hc : Core g s) (hd : Drain g
         cases ha : g.isAsync
         · rfl
         · exact absurd hps (hc.psok.asyncPs ha i fl)
+      have htn := (hc.gate.sync hasync).1
       obtain ⟨f1, f2, f3, f4, f5, f6, f7, f8, f9, f10, f11, f12, f13, f14, f15, f16, _⟩ := doRead_frame g s
       obtain ⟨q1, q2, q3, q4⟩ := doRead_queue g s hc.kind
       have hdc := doRead_closed_iff g s
@@ -146,7 +190,7 @@ theorem drain_step (g : Cfg) (s s' : St) (a : Act) (hc : Core g s) (hd : Drain g
         · split at h
           · split at h <;> cases h <;> rfl
           · cases h
-      refine ⟨fun fl' h => ?_, ?_, fun _ fl' hp hr => ?_, fun _ => ?_⟩
+      refine ⟨fun fl' h => ?_, ?_, fun _ fl' hp hr => ?_, fun ha => (by rw [hasync] at ha; cases ha), fun a ht => ?_, ?_⟩
       · have := hps' fl' h; subst this
         show (fl'.rdhup = true → (consume g (doRead g s).2 (doRead g s).1).2.k.eof = true) ∧
              (fl'.err = true → (consume g (doRead g s).2 (doRead g s).1).2.k.rerr = true)
@@ -180,22 +224,28 @@ theorem drain_step (g : Cfg) (s s' : St) (a : Act) (hc : Core g s) (hd : Drain g
             rcases k12 with h' | ⟨_, h'⟩
             · rw [h', f1]; exact hsc
             · exact h'
+      · have : (consume g (doRead g s).2 (doRead g s).1).2.task = .rd a true := ht
+        rw [k4, f5, htn] at this; cases this
       · show (consume g (doRead g s).2 (doRead g s).1).2.lost = 0
-        rw [k7, f14]; exact d4 hasync
+        rw [k7, f14]; exact d4
     · next fl hps =>
       cases hs
-      refine ⟨fun fl' h => ?_, ?_, fun _ fl' hp => ?_, fun ha => ?_⟩
+      have hfr : (finish g s fl).k.eof = s.k.eof ∧ (finish g s fl).task = s.task ∧ (finish g s fl).k.rerr = s.k.rerr ∧
+          (finish g s fl).k.qlen = s.k.qlen := by
+        unfold finish rearm closeHang; dsimp only; repeat' split
+        all_goals simp [K.qlen]
+      refine ⟨fun fl' h => ?_, ?_, fun _ fl' hp => ?_, fun _ fl' hp => ?_, fun a ht hna hnc => ?_, ?_⟩
       · rcases h with h | ⟨j, h⟩ <;> simp [setPs] at h
-      · have : (finish g s fl).k.eof = s.k.eof := by
-          unfold finish rearm closeHang; dsimp only; repeat' split
-          all_goals simp
-        show g.udp = true → (finish g s fl).k.eof = false
-        rw [this]; exact d2
+      · show g.udp = true → (finish g s fl).k.eof = false
+        rw [hfr.1]; exact d2
       · simp [setPs] at hp
+      · simp [setPs] at hp
+      · have ht' : (finish g s fl).task = .rd a true := ht
+        rw [hfr.2.1] at ht'
+        show (finish g s fl).k.rerr = true ∨ (finish g s fl).k.qlen = 0
+        rw [hfr.2.2.1, hfr.2.2.2]; exact d6 a ht' hna hnc
       · show (finish g s fl).lost = 0
-        have hl0 := d4 ha
         have hfl0 := d1 fl (Or.inl hps)
-        have hq := d3 ha fl hps
         unfold finish
         obtain ⟨r1, r2, r3, r4, r5, r6, r7, r8, r9, r10, r11, r12⟩ := rearm_frame s
         dsimp only
@@ -204,7 +254,7 @@ theorem drain_step (g : Cfg) (s s' : St) (a : Act) (hc : Core g s) (hd : Drain g
           intro t tc tl tr tq hh
           unfold closeHang
           split
-          · rw [tl]; exact hl0
+          · rw [tl]; exact d4
           · next hnc =>
             simp only
             split
@@ -213,10 +263,12 @@ theorem drain_step (g : Cfg) (s s' : St) (a : Act) (hc : Core g s) (hd : Drain g
               rw [tq]
               simp only [Flags.hang, Bool.or_eq_true] at hh
               rcases hh with hh | hh
-              · rcases hq hh with h | h | h
-                · rw [tc] at hnc; exact absurd h hnc
-                · rw [tr] at hne; exact absurd h hne
-                · exact h
+              · cases hasy : g.isAsync
+                · rcases d3 hasy fl hps hh with h | h | h
+                  · rw [tc] at hnc; exact absurd h hnc
+                  · rw [tr] at hne; exact absurd h hne
+                  · exact h
+                · have := d5 hasy fl hps; rw [hh] at this; cases this
               · rw [tr] at hne; exact absurd (hfl0.2 hh) hne
         split
         · next hh =>
@@ -224,18 +276,86 @@ theorem drain_step (g : Cfg) (s s' : St) (a : Act) (hc : Core g s) (hd : Drain g
           · exact key (rearm s) r1 r10 r12 r9 hh
           · exact key s rfl rfl rfl rfl hh
         · split
-          · rw [r10]; exact hl0
-          · exact hl0
+          · rw [r10]; exact d4
+          · exact d4
   | tstep =>
     simp only [step] at hs
-    obtain ⟨t1, t2, t3, t4⟩ := tstep_frame g s s' hs
-    have hasync : g.isAsync = true := by
-      cases ha : g.isAsync
-      · have := (hc.gate.sync ha).1
-        unfold tstep at hs; rw [this] at hs; cases hs
-      · rfl
-    refine ⟨fun fl h => ?_, by rw [t2]; exact d2, fun ha => (by rw [hasync] at ha; cases ha), fun ha => (by rw [hasync] at ha; cases ha)⟩
-    rw [t1] at h; rw [t2, t3]; exact d1 fl h
+    obtain ⟨t1, t2, t3⟩ := tstep_frame g s s' hs
+    refine ⟨fun fl h => ?_, by rw [t2]; exact d2, fun ha fl hp => ?_, fun ha fl hp => ?_, ?_, ?_⟩
+    · rw [t1] at h; rw [t2, t3]; exact d1 fl h
+    · -- synchronous configurations have no task
+      exfalso
+      have := (hc.gate.sync ha).1
+      unfold tstep at hs; rw [this] at hs; cases hs
+    · rw [t1] at hp; exact d5 ha fl hp
+    · -- hq and lost0, per shape of the task step
+      unfold tstep at hs
+      split at hs
+      · cases hs
+      · cases hs
+        intro a ht hna hnc
+        exact Or.inr (taskRead_hq g s s.hup hc.kind a true ht hna hnc)
+      · next a0 hb ht0 =>
+        cases hs
+        obtain ⟨k1, k2, k3, k4, k5, k6, k7, _⟩ := consume_frame g s a0
+        have hk2 : KindOk g (consume g s a0).2.k.reg (consume g s a0).2.k.rq (consume g s a0).2.k.dq := by rw [k1]; exact hc.kind
+        cases hnx : (consume g s a0).1 with
+        | again =>
+          intro a ht hna hnc
+          exact Or.inr (taskRead_hq g (consume g s a0).2 hb hk2 a true ht hna hnc)
+        | dead => intro a ht; simp [taskNext, setTask] at ht
+        | brk =>
+          intro a ht
+          simp only [taskNext] at ht
+          split at ht
+          · simp [setTask] at ht
+          split at ht
+          · simp [setTask] at ht
+          · split at ht <;> simp [setTask] at ht
+      · cases hs
+        intro a ht hna hnc
+        exact Or.inr (taskRead_hq g s s.hup hc.kind a true ht hna hnc)
+    · unfold tstep at hs
+      split at hs
+      · cases hs
+      · cases hs; rw [taskRead_lost]; exact d4
+      · next a0 hb ht0 =>
+        cases hs
+        obtain ⟨k1, k2, k3, k4, k5, k6, k7, k8, k9, k10, k11, k12⟩ := consume_frame g s a0
+        obtain ⟨n1, n2⟩ := consume_next g s a0
+        cases hnx : (consume g s a0).1 with
+        | again => simp only [taskNext]; rw [taskRead_lost, k7]; exact d4
+        | dead => show (consume g s a0).2.lost = 0; rw [k7]; exact d4
+        | brk =>
+          have hna : a0.again g = false := by
+            cases hag : a0.again g
+            · rfl
+            · have := n1.mpr hag; rw [hnx] at this; cases this
+          have hnc : a0 ≠ .closed := fun h => by have := n2.mpr (Or.inr h); rw [hnx] at this; cases this
+          simp only [taskNext]
+          split
+          · next hbt =>
+            -- the hang-up round closes: the queue was found empty after the hang-up (or a socket error is pending)
+            subst hbt
+            show (closeHang (consume g s a0).2).lost = 0
+            unfold closeHang
+            split
+            · rw [k7]; exact d4
+            · simp only
+              split
+              · rfl
+              · next hne =>
+                rw [k1] at hne ⊢
+                rcases d6 a0 ht0 hna hnc with h | h
+                · exact absurd h hne
+                · exact h
+          split
+          · show (rearm (consume g s a0).2).lost = 0
+            rw [(rearm_frame _).2.2.2.2.2.2.2.2.2.1, k7]; exact d4
+          · split
+            · show (consume g s a0).2.lost = 0; rw [k7]; exact d4
+            · show (consume g s a0).2.lost = 0; rw [k7]; exact d4
+      · cases hs; rw [taskRead_lost]; exact d4
 
 theorem drain_run (g : Cfg) (as : List Act) : ∀ s, Core g s → Drain g s → Drain g (run g s as) := by
   induction as with
